@@ -1,6 +1,7 @@
 //! Independent reference implementations used as oracles.
 pub mod cdf;
 pub mod dd;
+pub mod dual;
 pub mod glm_ref;
 pub mod linalg;
 pub mod quad;
